@@ -50,13 +50,22 @@ class Opacity(Logger, Citable):
         """
         raise NotImplementedError
 
+    def _bracketing_filter(self, wngrid):
+        # Native points inside the requested range plus the nearest native
+        # point on either side, so that interpolated values do not depend on
+        # where the requested grid happens to end.
+        native = self.wavenumberGrid
+        start = max(np.searchsorted(native, wngrid.min(), side='right') - 1, 0)
+        end = min(np.searchsorted(native, wngrid.max(), side='left') + 1,
+                  native.shape[0])
+        return np.arange(start, end)
+
     def opacity(self, temperature, pressure, wngrid=None):
 
         if wngrid is None:
             wngrid_filter = slice(None)
         else:
-            wngrid_filter = np.where((self.wavenumberGrid >= wngrid.min()) & (
-                self.wavenumberGrid <= wngrid.max()))[0]
+            wngrid_filter = self._bracketing_filter(wngrid)
 
         orig = self.compute_opacity(temperature, pressure, wngrid_filter)
 
